@@ -201,6 +201,34 @@ def run(ctx):
             out.append(k + b"\t" + c)
         return b"\n".join(out)
     rel(ctr, "acgt", [False, True], "acgt", decode_acgt)
+    # stdin input: the format is sniffed from the stream; the same records as FASTA and as FASTQ, through stdin and as files
+    def recs_of(fa):
+        out = []
+        for chunk in open(fa, "rb").read().split(b">")[1:]:
+            h, sq = chunk.split(b"\n", 1)
+            out.append((h, sq.replace(b"\n", b"")))
+        return [r for r in out if r[1]]
+    rr = recs_of(inp)
+    fa2, fq2 = ctx.path("std.fa"), ctx.path("std.fq")
+    with open(fa2, "wb") as f:
+        for h, sq in rr:
+            f.write(b">" + h + b"\n" + sq + b"\n")
+    with open(fq2, "wb") as f:
+        for h, sq in rr:
+            f.write(b"@" + h + b"\n" + sq + b"\n+\n" + b"I" * len(sq) + b"\n")
+    digs = []
+    for j, (path, stdin) in enumerate([(fa2, False), (fa2, True), (fq2, False), (fq2, True)]):
+        o = dict(oligo, stdin=stdin)
+        out = ctx.path("cli_std_%d" % j)
+        clean(out)
+        fh = open(path, "rb") if stdin else None
+        vlib.sh([cli] + args_of(o, path, out, alt), timeout=600, stdin=fh)
+        if fh:
+            fh.close()
+        digs.append(digest(o, out))
+        clean(out)
+    for d in digs[1:]:
+        allev.append({"ev": "eq", "what": "file/stdin x fasta/fastq", "o": dict(oligo), "a": digs[0], "b": d})
     # the pip flavour's run_cli() (pip/src/lib.rs) is the same cli() behind a Python entry point: a handful of accepted and
     # refused vectors through it must behave like the binary
     import sys
